@@ -105,15 +105,18 @@ Definition arity_of (v : Z) : option nat :=
 
 Definition is_lower (v : Z) : bool := ch v 97 122.
 
-(* normalize *)
-Definition norm_args (tr : option aff3) (n : nat) (verb : Z) (a : list f32) : list f32 :=
+(* normalize, written over the abstract numeric type (float32 instance below, R instance in proofs/PathR.v) *)
+Section Normalize.
+Context {T : Type} (O : genops T).
+Definition norm_args_gen (tr : option (list T)) (n : nat) (verb : Z) (a : list T) : list T :=
   match tr with
   | None => a
   | Some t =>
-      let sc := [at_ t 0; k0; k0; k0; at_ t 4; k0] in
+      let z := o_zero O in
+      let sc := [at_gen O t 0; z; z; z; at_gen O t 4; z] in
       let t' := if is_lower verb then sc else t in
-      let g (i : nat) := nth i a 0 in
-      let p (i j : nat) (m : aff3) := mul_aff3 (g i) (g j) m in
+      let g (i : nat) := nth i a z in
+      let p (i j : nat) (m : list T) := mul_aff3_gen O (g i) (g j) m in
       match n with
       | 7%nat => let '(x0, y0) := p 0%nat 1%nat sc in let '(x5, y6) := p 5%nat 6%nat t' in
                  [x0; y0; g 2%nat; g 3%nat; g 4%nat; x5; y6]
@@ -122,12 +125,14 @@ Definition norm_args (tr : option aff3) (n : nat) (verb : Z) (a : list f32) : li
       | 4%nat => let '(a2, a3) := p 2%nat 3%nat t' in let '(a0, a1) := p 0%nat 1%nat t' in [a0; a1; a2; a3]
       | 2%nat => let '(a0, a1) := p 0%nat 1%nat t' in [a0; a1]
       | 1%nat =>
-          if (verb =? 72) || (verb =? 104) then [fst (mul_aff3 (g 0%nat) k0 t')]
-          else if (verb =? 86) || (verb =? 118) then [snd (mul_aff3 k0 (g 0%nat) t')]
+          if (verb =? 72) || (verb =? 104) then [fst (mul_aff3_gen O (g 0%nat) z t')]
+          else if (verb =? 86) || (verb =? 118) then [snd (mul_aff3_gen O z (g 0%nat) t')]
           else a
       | _ => a
       end
   end.
+End Normalize.
+Definition norm_args : option aff3 -> nat -> Z -> list f32 -> list f32 := norm_args_gen G32.
 
 Definition c360 : f32 := of_Z F32 360.
 Definition nz (x : f32) : bool := negb (feq F32 x 0).
@@ -291,35 +296,42 @@ Fixpoint adj_lookup (adjs : list (f32 * Z)) (o : f32) : option Z :=
 Definition c255 : f32 := of_Z F32 255.
 Definition c2 : f32 := of_Z F32 2.
 
+(* the register for a path opacity: 1 (or none) uses the current colour; otherwise a blend of
+   transparent (0x7f) with the first custom palette colour (0x80), one register per distinct opacity *)
+Definition md_opacity (adjs : list (f32 * Z)) (opacity : option f32) : list call * Z * list (f32 * Z) :=
+  let op := match opacity with Some o => o | None => k1 end in
+  if negb (feq F32 op k1) then
+    match adj_lookup adjs op with
+    | Some a => ([], a, adjs)
+    | None =>
+        let a := (Z.of_nat (length adjs) + 1) mod 256 in
+        let t := match ftrunc F32 (fmul F32 op c255) with Some i => i mod 256 | None => 0 end in
+        ([CSetCReg a false (CBlend t 127 128)], a, adjs ++ [(op, a)])
+    end
+  else ([], 0, adjs).
+
+(* one circle: move to its left-most point, two relative half-turn arcs *)
+Definition md_circle (adj : Z) (size ox oy outsize : f32) (need : bool) (c : circle) : list call :=
+  let half_off_x := fadd F32 (fdiv F32 outsize c2) ox in
+  let half_off_y := fadd F32 (fdiv F32 outsize c2) oy in
+  let cx := fsub F32 (fdiv F32 (fmul F32 (ci_cx c) outsize) size) half_off_x in
+  let cy := fsub F32 (fdiv F32 (fmul F32 (ci_cy c) outsize) size) half_off_y in
+  let r := fdiv F32 (fmul F32 (ci_r c) outsize) size in
+  let mv := if need then CStartPath adj (fsub F32 cx r) cy else CDraw opY [fsub F32 cx r; cy] in
+  let two_r := fmul F32 c2 r in
+  [mv; CArc true r r 0 false true two_r 0; CArc true r r 0 false true (fmul F32 (fneg F32 c2) r) 0].
+
+Definition md_circles (adj : Z) (size ox oy outsize : f32) (need_start : bool) (circles : list circle) : list call :=
+  snd (fold_left (fun (st : bool * list call) c => (false, snd st ++ md_circle adj size ox oy outsize (fst st) c))
+                 circles (need_start, [])).
+
 Definition md_parse_path (adjs : list (f32 * Z)) (opacity : option f32) (d : str) (size ox oy outsize : f32)
   (circles : list circle) : list call * list (f32 * Z) * bool :=
-  let op := match opacity with Some o => o | None => k1 end in
-  let '(pre, adj, adjs') :=
-    if negb (feq F32 op k1) then
-      match adj_lookup adjs op with
-      | Some a => ([], a, adjs)
-      | None =>
-          let a := (Z.of_nat (length adjs) + 1) mod 256 in
-          let t := match ftrunc F32 (fmul F32 op c255) with Some i => i mod 256 | None => 0 end in
-          ([CSetCReg a false (CBlend t 127 128)], a, adjs ++ [(op, a)])
-      end
-    else ([], 0, adjs) in
+  let '(pre, adj, adjs') := md_opacity adjs opacity in
   let '(pcalls, ok, need_start) :=
     match d with
     | [] => ([], true, true)
     | _ => let '(cs, ok) := md_parse_path_data d adj size ox oy outsize in (cs, ok, false)
     end in
   if negb ok then (pre ++ pcalls, adjs', false)
-  else
-    let half_off_x := fadd F32 (fdiv F32 outsize c2) ox in
-    let half_off_y := fadd F32 (fdiv F32 outsize c2) oy in
-    let circ (st : bool * list call) (c : circle) : bool * list call :=
-      let '(need, acc) := st in
-      let cx := fsub F32 (fdiv F32 (fmul F32 (ci_cx c) outsize) size) half_off_x in
-      let cy := fsub F32 (fdiv F32 (fmul F32 (ci_cy c) outsize) size) half_off_y in
-      let r := fdiv F32 (fmul F32 (ci_r c) outsize) size in
-      let mv := if need then CStartPath adj (fsub F32 cx r) cy else CDraw opY [fsub F32 cx r; cy] in
-      let two_r := fmul F32 c2 r in
-      (false, acc ++ [mv; CArc true r r 0 false true two_r 0; CArc true r r 0 false true (fmul F32 (fneg F32 c2) r) 0]) in
-    let '(_, ccalls) := fold_left circ circles (need_start, []) in
-    (pre ++ pcalls ++ ccalls ++ [CEndPath], adjs', true).
+  else (pre ++ pcalls ++ md_circles adj size ox oy outsize need_start circles ++ [CEndPath], adjs', true).
